@@ -7,17 +7,16 @@ set_option linter.unusedVariables false
 /-
 C17 — Akamai HTTP/2 fingerprints follow the published format, incrementally too.
 
-Contents
+Contents (state of the code after fixes/C16-1, C17-1, C17-2, C17-3)
   1. frame layer: the splitter of `parse_frames` yields exactly the frames RFC 7540 §4.1 puts on the
      wire (`parseFrames_splits`, `splits_unique`), for every byte string;
-  2. `oneshot_conforms_partial`: outside the five one-shot known-finding classes the one-shot
-     fingerprint is the specified string `S|WU|P|PS`, for every byte string and every HPACK;
-     `FullOneshot` (the statement without exclusions) and kernel-checked witnesses that it fails in
-     each class;
-  3. `incremental_eq_oneshot_partial`: for every chunking outside `frameBeforeSettingsChunk` the
-     extractor reports once, on the first chunk for which the one-shot function is defined on the
-     bytes received so far, and reports that value; `incremental_conforms_partial` combines 2 and 3;
-     `FullIncremental` and its witness.
+  2. `oneshot_conforms_partial`: outside the three remaining one-shot known-finding classes the
+     one-shot fingerprint is the specified string `S|WU|P|PS`, for every byte string, every framing of
+     the request header block (PADDED, PRIORITY, CONTINUATION) and every HPACK; `FullOneshot` (the
+     statement without exclusions) and kernel-checked witnesses that it fails in each class;
+  3. `incremental_eq_oneshot` (full strength, no exclusion): for every chunking the extractor reports
+     once, on the first chunk for which the one-shot function is defined on the bytes received so far,
+     and reports that value; `incremental_conforms_partial` combines 2 and 3.
 HPACK is a parameter (`H : Hpack`) everywhere; the SHA-256 of the string is a function of the string
 and is not part of the statements.
 -/
@@ -270,22 +269,19 @@ private theorem tokens_letters : ∀ ps : List Field,
     rw [ih (fun x hx => hall x (List.mem_cons_of_mem _ hx))]
 
 private theorem pseudo_list (hs : List Field)
-    (hlet : (hs.filter isPseudo).all (fun h => (letter h.1).isSome) = true)
-    (hutf : (hs.filter isPseudo).any (fun h => !utf8Valid h.2) = false) :
-    ((hs.filter (fun h => utf8Valid h.1 && utf8Valid h.2)).filter (fun h => h.1.head? == some colon)).map
+    (hlet : (hs.filter isPseudo).all (fun h => (letter h.1).isSome) = true) :
+    ((hs.filter (fun h => utf8Valid h.1)).filter (fun h => h.1.head? == some colon)).map
         (fun h => pseudoToken h.1)
       = ((hs.filter isPseudo).filterMap (fun h => letter h.1)).map (fun l => [l]) := by
-  change ((hs.filter (fun h => utf8Valid h.1 && utf8Valid h.2)).filter isPseudo).map (fun h => pseudoToken h.1) = _
+  change ((hs.filter (fun h => utf8Valid h.1)).filter isPseudo).map (fun h => pseudoToken h.1) = _
   rw [List.all_eq_true] at hlet
-  rw [List.any_eq_false] at hutf
   have hall : ∀ h ∈ hs.filter isPseudo,
-      (utf8Valid h.1 && utf8Valid h.2) = true ∧ ∃ l, letter h.1 = some l ∧ pseudoToken h.1 = [l] := by
+      utf8Valid h.1 = true ∧ ∃ l, letter h.1 = some l ∧ pseudoToken h.1 = [l] := by
     intro h hh
     obtain ⟨l, hl⟩ := Option.isSome_iff_exists.mp (hlet h hh)
     obtain ⟨ht, hv⟩ := letter_token h.1 l hl
-    have hv2 : utf8Valid h.2 = true := by simpa using hutf h hh
-    exact ⟨by simp [hv, hv2], l, hl, ht⟩
-  have hf : (hs.filter (fun h => utf8Valid h.1 && utf8Valid h.2)).filter isPseudo = hs.filter isPseudo := by
+    exact ⟨hv, l, hl, ht⟩
+  have hf : (hs.filter (fun h => utf8Valid h.1)).filter isPseudo = hs.filter isPseudo := by
     rw [List.filter_filter]
     apply List.filter_congr
     intro h hh
@@ -297,40 +293,39 @@ private theorem pseudo_list (hs : List Field)
   rw [hf]
   exact tokens_letters _ (fun h hh => (hall h hh).2)
 
-private theorem fragment_plain (f : Frame) (h1 : padded f = false) (h2 : hasPriority f = false) :
-    headersFragment f = some f.payload := by
-  simp [headersFragment, h1, h2]
-
 private theorem render_PS {H : Hpack} {frames : List Frame} (hl : Legal H frames)
-    (k3 : KF.C17.headersPaddedOrPriority frames = false)
-    (k4 : KF.C17.headersContinued frames = false)
-    (k5 : KF.C17.nonUtf8PseudoValue H frames = false) :
+    (k4 : KF.C17.headersContinued frames = false) :
     sepJoin 44 (extractPseudo H frames) = renderPS (pseudoOrder H frames) := by
   have hleg := hl.2.2
   unfold extractPseudo
-  rw [pred_headers, ← firstWithRest_find]
-  unfold KF.C17.headersPaddedOrPriority at k3
+  have hpred : (fun f : Frame => !(f.ty == tyHeaders && decide (f.sid > 0))) = (fun f => !isRequestHeaders f) := by
+    rw [← pred_headers]
+  rw [hpred, dropWhile_firstWithRest]
   unfold KF.C17.headersContinued at k4
-  unfold KF.C17.nonUtf8PseudoValue at k5
   unfold requestBlockLegal at hleg
   unfold pseudoOrder renderPS
   unfold requestBlock at *
   cases hf : firstWithRest isRequestHeaders frames with
-  | none => simp [sepJoin, joinWith]
+  | none => simp [headerBlockOf, sepJoin, joinWith]
   | some p =>
     obtain ⟨f, rest⟩ := p
-    rw [hf] at k3 k4 k5 hleg
-    simp only [Bool.or_eq_false_iff, Bool.not_eq_false'] at k3 k4
-    have hb : headerBlock f rest = .complete f.payload := by
-      simp [headerBlock, fragment_plain f k3.1 k3.2, k4]
-    simp only [Option.map_some, hb] at k5 hleg ⊢
-    unfold pseudoOfBlock
-    cases hd : (H.dec H.init f.payload).1 with
-    | none => rw [hd] at hleg; simp at hleg
-    | some hs =>
-      rw [hd] at hleg k5
-      simp only at hleg k5 ⊢
-      rw [sepJoin_eq_joinWith, pseudo_list hs hleg k5]
+    rw [hf] at k4 hleg
+    simp only [Option.map_some] at k4 hleg ⊢
+    cases hb : headerBlock f rest with
+    | incomplete => rw [hb] at k4; simp at k4
+    | malformed => rw [hb] at hleg; simp at hleg
+    | complete b =>
+      rw [hb] at hleg
+      simp only at hleg ⊢
+      rw [headerBlockOf_complete f rest b hb]
+      simp only
+      unfold pseudoOfBlock
+      cases hd : (H.dec H.init b).1 with
+      | none => rw [hd] at hleg; simp at hleg
+      | some hs =>
+        rw [hd] at hleg
+        simp only at hleg ⊢
+        rw [sepJoin_eq_joinWith, pseudo_list hs hleg]
 
 /-- the full-strength statement: for every HPACK and every byte string whose frames are `Legal`,
 the one-shot result is the specified fingerprint string (and absent exactly when the specification
@@ -343,14 +338,12 @@ def FullOneshot : Prop :=
 theorem extract_conforms_partial (H : Hpack) (frames : List Frame) (hl : Legal H frames)
     (k1 : KF.C17.emptyFirstSettings frames = false)
     (k2 : KF.C17.zeroWindowIncrement frames = false)
-    (k3 : KF.C17.headersPaddedOrPriority frames = false)
-    (k4 : KF.C17.headersContinued frames = false)
-    (k5 : KF.C17.nonUtf8PseudoValue H frames = false) :
+    (k4 : KF.C17.headersContinued frames = false) :
     (extractAkamai H frames).map Fingerprint.render = fingerprint H frames := by
   have hS := render_S
   have hW := render_WU hl k2
   have hP := render_P hl
-  have hPS := render_PS hl k3 k4 k5
+  have hPS := render_PS hl k4
   unfold extractAkamai fingerprint extractSettings
   unfold KF.C17.emptyFirstSettings at k1
   rw [pred_settings]
@@ -370,20 +363,21 @@ theorem extract_conforms_partial (H : Hpack) (frames : List Frame) (hl : Legal H
 
 /-- **C17, one-shot.** For every HPACK `H`, every byte string `data` and the frames `frames` it
 carries after the client preface (RFC 7540 wire format), if the frames are `Legal` and the input is in
-none of the five known-finding classes, `extract_akamai_fingerprint_from_bytes` returns exactly the
-specified string `S|WU|P|PS` — or nothing, exactly when there is no SETTINGS frame yet. -/
+none of the three remaining known-finding classes (first SETTINGS frame without parameters,
+WINDOW_UPDATE increment 0, request header block whose END_HEADERS has not arrived),
+`extract_akamai_fingerprint_from_bytes` returns exactly the specified string `S|WU|P|PS` — for any
+padding, PRIORITY fields and CONTINUATION framing of the request block — or nothing, exactly when
+there is no SETTINGS frame yet. -/
 theorem oneshot_conforms_partial (H : Hpack) (data : Bytes) (frames : List Frame)
     (hs : Splits (afterPreface data) frames) (hl : Legal H frames)
     (k1 : KF.C17.emptyFirstSettings frames = false)
     (k2 : KF.C17.zeroWindowIncrement frames = false)
-    (k3 : KF.C17.headersPaddedOrPriority frames = false)
-    (k4 : KF.C17.headersContinued frames = false)
-    (k5 : KF.C17.nonUtf8PseudoValue H frames = false) :
+    (k4 : KF.C17.headersContinued frames = false) :
     (oneShot H data).map Fingerprint.render = fingerprint H frames := by
   have : frames = parseFrames (afterPreface data) := splits_unique hs (parseFrames_splits _)
   subst this
   rw [oneShot_frames]
-  exact extract_conforms_partial H _ hl k1 k2 k3 k4 k5
+  exact extract_conforms_partial H _ hl k1 k2 k4
 
 /-- the specification's fingerprint of a byte string: by `parseFrames_splits` / `splits_unique` the
 frames it carries are `parseFrames (afterPreface data)` -/
@@ -394,41 +388,48 @@ theorem specFingerprint_spec (H : Hpack) (data : Bytes) (frames : List Frame)
     (hs : Splits (afterPreface data) frames) : specFingerprint H data = fingerprint H frames := by
   rw [splits_unique hs (parseFrames_splits _)]; rfl
 
-/-- all five one-shot classes at once, on a byte string -/
-def oneShotKF (H : Hpack) (data : Bytes) : Bool :=
+/-- the three one-shot classes at once, on a byte string -/
+def oneShotKF (data : Bytes) : Bool :=
   let fr := parseFrames (afterPreface data)
-  KF.C17.emptyFirstSettings fr || KF.C17.zeroWindowIncrement fr || KF.C17.headersPaddedOrPriority fr ||
-    KF.C17.headersContinued fr || KF.C17.nonUtf8PseudoValue H fr
+  KF.C17.emptyFirstSettings fr || KF.C17.zeroWindowIncrement fr || KF.C17.headersContinued fr
 
 theorem oneshot_conforms_bytes (H : Hpack) (data : Bytes)
-    (hl : Legal H (parseFrames (afterPreface data))) (hk : oneShotKF H data = false) :
+    (hl : Legal H (parseFrames (afterPreface data))) (hk : oneShotKF data = false) :
     (oneShot H data).map Fingerprint.render = specFingerprint H data := by
   simp only [oneShotKF, Bool.or_eq_false_iff] at hk
-  obtain ⟨⟨⟨⟨k1, k2⟩, k3⟩, k4⟩, k5⟩ := hk
-  exact oneshot_conforms_partial H data _ (parseFrames_splits _) hl k1 k2 k3 k4 k5
+  obtain ⟨⟨k1, k2⟩, k4⟩ := hk
+  exact oneshot_conforms_partial H data _ (parseFrames_splits _) hl k1 k2 k4
 
-/-! non-vacuity: a canonical client start (preface, SETTINGS 1:65536;4:131072, WINDOW_UPDATE,
-PRIORITY, HEADERS m,p,s,a) satisfies every hypothesis and has the expected fingerprint -/
+/-! non-vacuity: canonical client starts (preface, SETTINGS 1:65536;4:131072, WINDOW_UPDATE,
+PRIORITY, HEADERS m,p,s,a) satisfy every hypothesis and have the expected fingerprint — with a plain
+HEADERS frame, and with the same block behind PADDED + PRIORITY fields and split over two
+CONTINUATION frames -/
 private def stdSettings : Bytes := [0, 0, 12, 4, 0, 0, 0, 0, 0, 0, 1, 0, 1, 0, 0, 0, 4, 0, 2, 0, 0]
 private def stdHeaders : Bytes :=
   [0, 0, 16, 1, 5, 0, 0, 0, 1, 0x82, 0x84, 0x87, 0x01, 0x0b, 101, 120, 97, 109, 112, 108, 101, 46, 99, 111, 109]
-private def wGood : Bytes :=
+private def ctrl : Bytes :=
   clientPreface ++ stdSettings ++ [0, 0, 4, 8, 0, 0, 0, 0, 0, 0, 0xef, 0, 1] ++
-    [0, 0, 5, 2, 0, 0, 0, 0, 3, 0, 0, 0, 0, 200] ++ stdHeaders
+    [0, 0, 5, 2, 0, 0, 0, 0, 3, 0, 0, 0, 0, 200]
+private def wGood : Bytes := ctrl ++ stdHeaders
+-- HEADERS flags END_STREAM|PADDED|PRIORITY (no END_HEADERS): pad length 2, priority fields, 82 84, 2 pad octets;
+-- CONTINUATION (no flags): 87 01; CONTINUATION (END_HEADERS): 0b "example.com"
+private def wFramed : Bytes :=
+  ctrl ++ [0, 0, 10, 1, 0x29, 0, 0, 0, 1, 2, 0x80, 0, 0, 0, 15, 0x82, 0x84, 0, 0] ++
+    [0, 0, 2, 9, 0, 0, 0, 0, 1, 0x87, 0x01] ++
+    [0, 0, 12, 9, 4, 0, 0, 0, 1, 0x0b, 101, 120, 97, 109, 112, 108, 101, 46, 99, 111, 109]
 
-example : Legal Hpack.crate (parseFrames (afterPreface wGood)) ∧ oneShotKF Hpack.crate wGood = false ∧
+example : Legal Hpack.crate (parseFrames (afterPreface wGood)) ∧ oneShotKF wGood = false ∧
     specFingerprint Hpack.crate wGood = some (ascii "1:65536;4:131072|15663105|3:0:0:201|m,p,s,a") := by decide
 
-/-! witnesses: the full statement fails inside each class (replayed on the crates by the harness) -/
+example : Legal Hpack.crate (parseFrames (afterPreface wFramed)) ∧ oneShotKF wFramed = false ∧
+    (oneShot Hpack.crate wFramed).map Fingerprint.render =
+      some (ascii "1:65536;4:131072|15663105|3:0:0:201|m,p,s,a") := by decide
+
+/-! witnesses: the full statement fails inside each remaining class (replayed on the crates by the harness) -/
 private def wEmptySettings : Bytes := clientPreface ++ [0, 0, 0, 4, 0, 0, 0, 0, 0]
 private def wZeroWU : Bytes := clientPreface ++ stdSettings ++ [0, 0, 4, 8, 0, 0, 0, 0, 0, 0, 0, 0, 0]
-private def wPriorityFlag : Bytes :=
-  clientPreface ++ stdSettings ++
-    [0, 0, 0x15, 1, 0x25, 0, 0, 0, 1, 0, 0, 0, 0, 0xff, 0x82, 0x84, 0x87, 0x01, 0x0b, 101, 120, 97, 109, 112, 108, 101, 46, 99, 111, 109]
-private def wContinued : Bytes :=
-  clientPreface ++ stdSettings ++ [0, 0, 2, 1, 1, 0, 0, 0, 1, 0x82, 0x84] ++
-    [0, 0, 14, 9, 4, 0, 0, 0, 1, 0x87, 0x01, 0x0b, 101, 120, 97, 109, 112, 108, 101, 46, 99, 111, 109]
-private def wNonUtf8 : Bytes := clientPreface ++ stdSettings ++ [0, 0, 5, 1, 5, 0, 0, 0, 1, 0x82, 0x04, 0x01, 0xff, 0x87]
+-- HEADERS without END_HEADERS carrying :method GET, :path /; nothing after it yet
+private def wUnterminated : Bytes := clientPreface ++ stdSettings ++ [0, 0, 2, 1, 1, 0, 0, 0, 1, 0x82, 0x84]
 
 private abbrev Fails (w : Bytes) : Prop :=
   Legal Hpack.crate (parseFrames (afterPreface w)) ∧
@@ -438,12 +439,8 @@ theorem kf_emptyFirstSettings_witness :
     KF.C17.emptyFirstSettings (parseFrames (afterPreface wEmptySettings)) = true ∧ Fails wEmptySettings := by decide
 theorem kf_zeroWindowIncrement_witness :
     KF.C17.zeroWindowIncrement (parseFrames (afterPreface wZeroWU)) = true ∧ Fails wZeroWU := by decide
-theorem kf_headersPaddedOrPriority_witness :
-    KF.C17.headersPaddedOrPriority (parseFrames (afterPreface wPriorityFlag)) = true ∧ Fails wPriorityFlag := by decide
 theorem kf_headersContinued_witness :
-    KF.C17.headersContinued (parseFrames (afterPreface wContinued)) = true ∧ Fails wContinued := by decide
-theorem kf_nonUtf8PseudoValue_witness :
-    KF.C17.nonUtf8PseudoValue Hpack.crate (parseFrames (afterPreface wNonUtf8)) = true ∧ Fails wNonUtf8 := by decide
+    KF.C17.headersContinued (parseFrames (afterPreface wUnterminated)) = true ∧ Fails wUnterminated := by decide
 
 /-- the statement without exclusions is false for the current code -/
 theorem fullOneshot_fails : ¬ FullOneshot := by
@@ -466,122 +463,6 @@ private theorem parseFrames_short {d : Bytes} (h : d.length < 9) : parseFrames d
   unfold parseFrames
   rw [parseFramesWith_unfold, parseOne_short h]
 
-private theorem genMax_lt : Gen.H2.maxFrameSize < 2 ^ 24 := by decide
-
-private theorem preface_prefix_noframe : ∀ n, n < 24 → parseOne Gen.H2.maxFrameSize (preface.take n) = none := by
-  decide
-
-private theorem preface_length : preface.length = 24 := by decide
-
-/-- `seen` after its preface (what `parse_frames_skip_preface` parses) -/
-private def afterP (seen : Bytes) : Bytes := seen.drop (prefaceLen seen)
-
-private theorem oneShot_afterP (H : Hpack) (d : Bytes) : oneShot H d = extractAkamai H (parseFrames (afterP d)) := rfl
-
-private theorem prefaceLen_le (seen : Bytes) : prefaceLen seen ≤ seen.length := by
-  unfold prefaceLen hasPreface
-  split
-  · rename_i h
-    have := (List.isPrefixOf_iff_prefix.mp h).length_le
-    exact this
-  · omega
-
-/-- once a frame has been parsed, later bytes cannot turn the buffer into one that starts with the
-preface (or stop it from doing so) -/
-private theorem prefaceLen_stable (seen c : Bytes) (h : parseFrames (afterP seen) ≠ []) :
-    prefaceLen (seen ++ c) = prefaceLen seen := by
-  unfold prefaceLen hasPreface
-  by_cases hp : preface.isPrefixOf seen = true
-  · have h1 := List.isPrefixOf_iff_prefix.mp hp
-    have h2 : preface.isPrefixOf (seen ++ c) = true :=
-      List.isPrefixOf_iff_prefix.mpr (h1.trans (List.prefix_append seen c))
-    simp [hp, h2]
-  · have hp' : preface.isPrefixOf seen = false := Bool.eq_false_iff.mpr hp
-    by_cases hq : preface.isPrefixOf (seen ++ c) = true
-    · exfalso
-      have h2 := List.isPrefixOf_iff_prefix.mp hq
-      have h3 : seen <+: seen ++ c := List.prefix_append seen c
-      by_cases hlen : preface.length ≤ seen.length
-      · exact hp (List.isPrefixOf_iff_prefix.mpr (List.prefix_of_prefix_length_le h2 h3 hlen))
-      · have h4 : seen <+: preface := List.prefix_of_prefix_length_le h3 h2 (by omega)
-        have h5 := List.prefix_iff_eq_take.mp h4
-        have h6 : afterP seen = seen := by simp [afterP, prefaceLen, hasPreface, hp']
-        rw [h6] at h
-        apply h
-        unfold parseFrames
-        rw [parseFramesWith_unfold, h5, preface_prefix_noframe _ (by rw [preface_length] at hlen; omega)]
-    · have hq' : preface.isPrefixOf (seen ++ c) = false := Bool.eq_false_iff.mpr hq
-      simp [hp', hq']
-
-private theorem find_irrelevant {p : Frame → Bool} {F N : List Frame} (h : ∀ f ∈ F, p f = false) :
-    (F ++ N).find? p = N.find? p := by
-  rw [List.find?_append]
-  have : F.find? p = none := by
-    rw [List.find?_eq_none]; intro f hf; simp [h f hf]
-  simp [this]
-
-private theorem filter_irrelevant {p : Frame → Bool} {F N : List Frame} (h : ∀ f ∈ F, p f = false) :
-    (F ++ N).filter p = N.filter p := by
-  rw [List.filter_append]
-  have : F.filter p = [] := by
-    rw [List.filter_eq_nil_iff]; intro f hf; simp [h f hf]
-  simp [this]
-
-/-- frames that are not SETTINGS / connection WINDOW_UPDATE / PRIORITY / request HEADERS in front
-of a frame list do not change the fingerprint -/
-private theorem extract_irrelevant (H : Hpack) (F N : List Frame)
-    (h : F.any KF.C17.relevant = false) : extractAkamai H (F ++ N) = extractAkamai H N := by
-  rw [List.any_eq_false] at h
-  have hr : ∀ f ∈ F, isSettings f = false ∧ isConnWindowUpdate f = false ∧ isPriority f = false ∧
-      isRequestHeaders f = false := by
-    intro f hf
-    have := h f hf
-    simp only [KF.C17.relevant, Bool.or_eq_true, not_or, Bool.not_eq_true] at this
-    exact ⟨this.1.1.1, this.1.1.2, this.1.2, this.2⟩
-  unfold extractAkamai extractSettings extractWindowUpdate extractPriorities extractPseudo
-  rw [pred_settings, pred_wu, pred_prio, pred_headers]
-  rw [find_irrelevant (fun f hf => (hr f hf).1), find_irrelevant (fun f hf => (hr f hf).2.1),
-    filter_irrelevant (fun f hf => (hr f hf).2.2.1), find_irrelevant (fun f hf => (hr f hf).2.2.2)]
-
-private theorem extract_none_of_irrelevant (H : Hpack) (F : List Frame)
-    (h : F.any KF.C17.relevant = false) : extractAkamai H F = none := by
-  have := extract_irrelevant H F [] h
-  rw [List.append_nil] at this
-  rw [this]
-  simp [extractAkamai, extractSettings]
-
-private theorem consumed_pos {F : List Frame} (h : F ≠ []) : 0 < consumed F := by
-  cases F with
-  | nil => exact absurd rfl h
-  | cons f fs => simp only [consumed, Frame.totalSize]; omega
-
-/-- state of an extractor that has not reported yet, after the bytes `seen` -/
-private structure Inv0 (s : Extractor) (seen : Bytes) : Prop where
-  fp : s.fingerprint = none
-  buf : s.buffer = seen
-  off : s.parsedOffset =
-    if parseFrames (afterP seen) = [] then 0 else prefaceLen seen + consumed (parseFrames (afterP seen))
-
-private structure Inv (s : Extractor) (seen : Bytes) : Prop extends Inv0 s seen where
-  irr : (parseFrames (afterP seen)).any KF.C17.relevant = false
-
-private theorem run_done (H : Hpack) {α} (f : Bytes → Option α) :
-    ∀ (chunks : List Bytes) (s : Extractor) (seen : Bytes), s.fingerprint.isSome = true →
-      (Extractor.run H s chunks).map (fun _ => ()) = (reportOnce f seen true chunks).map (fun _ => ()) ∧
-      ∀ o ∈ Extractor.run H s chunks, o = none := by
-  intro chunks
-  induction chunks with
-  | nil => intro s seen _; simp [Extractor.run, reportOnce]
-  | cons c cs ih =>
-    intro s seen hs
-    have hstep : s.addBytes H c = (s, none) := by simp [Extractor.addBytes, hs]
-    simp only [Extractor.run, hstep, reportOnce, if_true, List.map_cons, List.mem_cons]
-    obtain ⟨h1, h2⟩ := ih s (seen ++ c) hs
-    refine ⟨by rw [h1], ?_⟩
-    rintro o (rfl | ho)
-    · rfl
-    · exact h2 o ho
-
 private theorem reportOnce_done {α} (f : Bytes → Option α) : ∀ (chunks : List Bytes) (seen : Bytes),
     reportOnce f seen true chunks = chunks.map (fun _ => none) := by
   intro chunks
@@ -599,93 +480,35 @@ private theorem run_done_eq (H : Hpack) : ∀ (chunks : List Bytes) (s : Extract
     have hstep : s.addBytes H c = (s, none) := by simp [Extractor.addBytes, hs]
     simp [Extractor.run, hstep, ih s hs]
 
-/-- what one `add_bytes` call parses, in terms of the frames of the whole buffer -/
-private theorem step_frames (s : Extractor) (seen c : Bytes) (inv : Inv0 s seen) :
-    let start := if s.parsedOffset = 0 ∧ hasPreface (seen ++ c) = true then preface.length else s.parsedOffset
-    let N := parseFrames ((seen ++ c).drop start)
-    parseFrames (afterP (seen ++ c)) = parseFrames (afterP seen) ++ N ∧
-    (N ≠ [] → start + consumed N = prefaceLen (seen ++ c) + consumed (parseFrames (afterP (seen ++ c)))) := by
-  intro start N
-  by_cases hF : parseFrames (afterP seen) = []
-  · have hoff : s.parsedOffset = 0 := by rw [inv.off]; simp [hF]
-    have hstart : start = prefaceLen (seen ++ c) := by
-      simp only [start, hoff, true_and, prefaceLen]
-      try (split <;> rfl)
-    have hN : N = parseFrames (afterP (seen ++ c)) := by simp only [N, hstart]; rfl
-    rw [hF, List.nil_append, ← hN]
-    exact ⟨rfl, fun _ => by rw [hstart]⟩
-  · have hpl := prefaceLen_stable seen c hF
-    have hpos := consumed_pos hF
-    have hoff : s.parsedOffset = prefaceLen seen + consumed (parseFrames (afterP seen)) := by
-      rw [inv.off]; simp [hF]
-    have hstart : start = prefaceLen seen + consumed (parseFrames (afterP seen)) := by
-      simp only [start]
-      rw [if_neg (by omega)]
-      exact hoff
-    have hle := prefaceLen_le seen
-    have hcl : consumed (parseFrames (afterP seen)) ≤ (afterP seen).length := consumed_le _ _
-    have hap : afterP (seen ++ c) = afterP seen ++ c := by
-      simp only [afterP, hpl]
-      exact List.drop_append_of_le_length hle
-    have hdrop : (seen ++ c).drop start = (afterP seen).drop (consumed (parseFrames (afterP seen))) ++ c := by
-      rw [hstart, ← List.drop_drop]
-      have : List.drop (prefaceLen seen) (seen ++ c) = afterP seen ++ c := by
-        rw [← hap]; simp [afterP, hpl]
-      rw [this]
-      exact List.drop_append_of_le_length hcl
-    have happ : parseFrames (afterP (seen ++ c)) = parseFrames (afterP seen) ++ N := by
-      simp only [N, hdrop, hap]
-      exact parseFrames_append genMax_lt _ _
-    refine ⟨happ, fun _ => ?_⟩
-    rw [happ, consumed_append, hstart, hpl]
-    omega
 
 private theorem incremental_aux (H : Hpack) : ∀ (chunks : List Bytes) (s : Extractor) (seen : Bytes),
-    Inv s seen → KF.C17.frameBeforeSettingsChunk.go H seen chunks = false →
+    s.fingerprint = none → s.buffer = seen →
     Extractor.run H s chunks = reportOnce (oneShot H) seen false chunks := by
   intro chunks
   induction chunks with
   | nil => intro _ _ _ _; rfl
   | cons c cs ih =>
-    intro s seen inv hk
-    obtain ⟨hfr, hN⟩ := step_frames s seen c inv.toInv0
-    have hirr := inv.irr
-    -- one-shot on the new prefix = fingerprint of the frames parsed by this call
+    intro s seen hfp hbuf
+    have hfpnone : s.fingerprint.isSome = false := by rw [hfp]; rfl
     have hone : oneShot H (seen ++ c) = extractAkamai H
-        (parseFrames ((seen ++ c).drop
-          (if s.parsedOffset = 0 ∧ hasPreface (seen ++ c) = true then preface.length else s.parsedOffset))) := by
-      rw [oneShot_afterP, hfr, extract_irrelevant H _ _ hirr]
-    simp only [KF.C17.frameBeforeSettingsChunk.go, Bool.or_eq_false_iff] at hk
-    obtain ⟨hk1, hk2⟩ := hk
-    have hfpnone : s.fingerprint.isSome = false := by rw [inv.fp]; rfl
+        (parseFrames ((seen ++ c).drop (if hasPreface (seen ++ c) = true then preface.length else 0))) := rfl
     simp only [Extractor.run, reportOnce, Bool.false_eq_true, if_false]
     unfold Extractor.addBytes
-    simp only [hfpnone, Bool.false_eq_true, if_false, inv.buf]
-    generalize hst : (if s.parsedOffset = 0 ∧ hasPreface (seen ++ c) = true then preface.length else s.parsedOffset) = start at *
+    simp only [hfpnone, Bool.false_eq_true, if_false, hbuf]
+    rw [hone]
+    generalize hst : (if hasPreface (seen ++ c) = true then preface.length else 0) = start at *
     generalize hNd : parseFrames ((seen ++ c).drop start) = N at *
+    have hx : extractAkamai H ([] : List Frame) = none := by simp [extractAkamai, extractSettings]
     by_cases hlen : ((seen ++ c).drop start).length ≥ 9
     · simp only [hlen, if_true]
       cases hNe : N with
       | nil =>
-        -- nothing new parsed
-        subst hNe
-        have hnone : oneShot H (seen ++ c) = none := by rw [hone]; simp [extractAkamai, extractSettings]
-        simp only [List.isEmpty_nil, if_true, hnone]
+        simp only [List.isEmpty_nil, if_true, hx]
         congr 1
-        apply ih _ _ _ hk2
-        rw [List.append_nil] at hfr
-        exact { fp := inv.fp, buf := rfl,
-                off := by
-                  rw [inv.off, hfr]
-                  by_cases hF : parseFrames (afterP seen) = []
-                  · simp [hF]
-                  · simp only [hF, if_false]; rw [prefaceLen_stable seen c hF],
-                irr := by rw [hfr]; exact hirr }
+        exact ih _ _ hfp rfl
       | cons n ns =>
-        have hNne : N ≠ [] := by rw [hNe]; simp
         simp only [List.isEmpty_cons, Bool.false_eq_true, if_false]
-        rw [← hNe, hone]
-        cases hex : extractAkamai H N with
+        cases hex : extractAkamai H (n :: ns) with
         | some fp =>
           simp only
           congr 1
@@ -693,150 +516,20 @@ private theorem incremental_aux (H : Hpack) : ∀ (chunks : List Bytes) (s : Ext
         | none =>
           simp only
           congr 1
-          cases cs with
-          | nil => rfl
-          | cons c2 cs2 =>
-            apply ih _ _ _ hk2
-            have hrel : (parseFrames (afterP (seen ++ c))).any KF.C17.relevant = false := by
-              have hex' : extractAkamai H (parseFrames (afterP (seen ++ c))) = none := by
-                rw [hfr, extract_irrelevant H _ _ hirr, hex]
-              have hk1' := hk1
-              simp only [KF.C17.frameBeforeSettingsChunk.go, parseFramesSkipPreface, List.isEmpty_cons,
-                Bool.not_false, Bool.true_and] at hk1'
-              change ((parseFrames (afterP (seen ++ c))).any KF.C17.relevant &&
-                (extractAkamai H (parseFrames (afterP (seen ++ c)))).isNone) = false at hk1'
-              rw [hex'] at hk1'
-              simpa using hk1'
-            have hne' : parseFrames (afterP (seen ++ c)) ≠ [] := by
-              rw [hfr]; intro h0; exact hNne (List.append_eq_nil_iff.mp h0).2
-            exact { fp := rfl, buf := rfl,
-                    off := by simp only [hne', if_false]; exact hN hNne,
-                    irr := hrel }
-    · -- fewer than 9 bytes after the offset: nothing can be parsed
-      have hNnil : N = [] := by rw [← hNd]; exact parseFrames_short (by omega)
-      subst hNnil
-      have hnone : oneShot H (seen ++ c) = none := by rw [hone]; simp [extractAkamai, extractSettings]
-      simp only [hlen, if_false, hnone]
-      congr 1
-      apply ih _ _ _ hk2
-      rw [List.append_nil] at hfr
-      exact { fp := inv.fp, buf := rfl,
-              off := by
-                rw [inv.off, hfr]
-                by_cases hF : parseFrames (afterP seen) = []
-                · simp [hF]
-                · simp only [hF, if_false]; rw [prefaceLen_stable seen c hF],
-              irr := by rw [hfr]; exact hirr }
-
-
-/-! ### what the extractor does for *every* chunking (no exclusion) -/
-
-/-- frames carried by a byte prefix (after the preface) -/
-def framesOf (d : Bytes) : List Frame := (parseFramesSkipPreface d).1
-
-/-- report, once, the fingerprint of the frames that *became complete with the current chunk* -/
-def windowReport (H : Hpack) : (seen : Bytes) → (done : Bool) → List Bytes → List (Option Fingerprint)
-  | _, _, [] => []
-  | seen, done, c :: cs =>
-    let seen' := seen ++ c
-    if done then none :: windowReport H seen' true cs
-    else match extractAkamai H ((framesOf seen').drop (framesOf seen).length) with
-      | some fp => some fp :: windowReport H seen' true cs
-      | none => none :: windowReport H seen' false cs
-
-private theorem windowReport_done (H : Hpack) : ∀ (chunks : List Bytes) (seen : Bytes),
-    windowReport H seen true chunks = chunks.map (fun _ => none) := by
-  intro chunks
-  induction chunks with
-  | nil => intro _; rfl
-  | cons c cs ih => intro seen; simp [windowReport, ih]
-
-private theorem window_aux (H : Hpack) : ∀ (chunks : List Bytes) (s : Extractor) (seen : Bytes),
-    Inv0 s seen → Extractor.run H s chunks = windowReport H seen false chunks := by
-  intro chunks
-  induction chunks with
-  | nil => intro _ _ _; rfl
-  | cons c cs ih =>
-    intro s seen inv
-    obtain ⟨hfr, hN⟩ := step_frames s seen c inv
-    have hfpnone : s.fingerprint.isSome = false := by rw [inv.fp]; rfl
-    have hwin : (framesOf (seen ++ c)).drop (framesOf seen).length =
-        parseFrames ((seen ++ c).drop
-          (if s.parsedOffset = 0 ∧ hasPreface (seen ++ c) = true then preface.length else s.parsedOffset)) := by
-      change (parseFrames (afterP (seen ++ c))).drop (parseFrames (afterP seen)).length = _
-      rw [hfr, List.drop_left]
-    simp only [Extractor.run, windowReport, Bool.false_eq_true, if_false, hwin]
-    unfold Extractor.addBytes
-    simp only [hfpnone, Bool.false_eq_true, if_false, inv.buf]
-    generalize hst : (if s.parsedOffset = 0 ∧ hasPreface (seen ++ c) = true then preface.length else s.parsedOffset) = start at *
-    generalize hNd : parseFrames ((seen ++ c).drop start) = N at *
-    have keep : N = [] → Inv0 { s with buffer := seen ++ c } (seen ++ c) := by
-      intro hNe
-      subst hNe
-      rw [List.append_nil] at hfr
-      exact { fp := inv.fp, buf := rfl,
-              off := by
-                show s.parsedOffset = _
-                rw [inv.off, hfr]
-                by_cases hF : parseFrames (afterP seen) = []
-                · simp [hF]
-                · simp only [hF, if_false]; rw [prefaceLen_stable seen c hF] }
-    by_cases hlen : ((seen ++ c).drop start).length ≥ 9
-    · simp only [hlen, if_true]
-      cases hNe : N with
-      | nil =>
-        have hx : extractAkamai H ([] : List Frame) = none := by simp [extractAkamai, extractSettings]
-        simp only [List.isEmpty_nil, if_true, hx]
-        congr 1
-        exact ih _ _ (keep hNe)
-      | cons n ns =>
-        have hNne : N ≠ [] := by rw [hNe]; simp
-        simp only [List.isEmpty_cons, Bool.false_eq_true, if_false]
-        rw [← hNe]
-        cases hex : extractAkamai H N with
-        | some fp =>
-          simp only
-          congr 1
-          rw [windowReport_done, run_done_eq H cs _ (by simp)]
-        | none =>
-          simp only
-          congr 1
-          apply ih
-          have hne' : parseFrames (afterP (seen ++ c)) ≠ [] := by
-            rw [hfr]; intro h0; exact hNne (List.append_eq_nil_iff.mp h0).2
-          exact { fp := rfl, buf := rfl, off := by simp only [hne', if_false]; exact hN hNne }
+          exact ih _ _ rfl rfl
     · have hNnil : N = [] := by rw [← hNd]; exact parseFrames_short (by omega)
-      have hx : extractAkamai H ([] : List Frame) = none := by simp [extractAkamai, extractSettings]
       simp only [hlen, if_false, hNnil, hx]
       congr 1
-      exact ih _ _ (keep hNnil)
+      exact ih _ _ hfp rfl
 
-/-- **C17, what the code does for every chunking.** With no exclusion at all:
-`Http2FingerprintExtractor::add_bytes` reports, once, the fingerprint of the frames that *became
-complete with the current chunk* — the first chunk whose newly completed frames contain a non-empty
-SETTINGS frame on stream 0. (This is the precise form of the finding
-`KF.C17.frameBeforeSettingsChunk`: frames completed by earlier chunks are not part of it.) -/
-theorem incremental_window (H : Hpack) (chunks : List Bytes) :
-    incremental H chunks = windowReport H [] false chunks := by
-  unfold incremental
-  exact window_aux H chunks {} [] { fp := rfl, buf := rfl, off := by decide }
-
-/-- the full-strength incremental statement: for every chunking, the extractor's outputs are
-"one report, on the first chunk at which the one-shot function is defined on the bytes so far, of
-that value" -/
-def FullIncremental : Prop :=
-  ∀ (H : Hpack) (chunks : List Bytes), incremental H chunks = reportOnce (oneShot H) [] false chunks
-
-/-- **C17, incremental.** For every HPACK and every partition of every byte stream into chunks that is
-outside `KF.C17.frameBeforeSettingsChunk`, `Http2FingerprintExtractor::add_bytes` returns `None` on
-every call except the first one after which the one-shot function yields a fingerprint for the bytes
-received so far, and on that call it returns that fingerprint. -/
-theorem incremental_eq_oneshot_partial (H : Hpack) (chunks : List Bytes)
-    (k : KF.C17.frameBeforeSettingsChunk H chunks = false) :
+/-- **C17, incremental.** For every HPACK and *every* partition of *every* byte stream into chunks,
+`Http2FingerprintExtractor::add_bytes` returns `None` on every call except the first one after which
+the one-shot function yields a fingerprint for the bytes received so far, and on that call it returns
+exactly that fingerprint. No exclusion. -/
+theorem incremental_eq_oneshot (H : Hpack) (chunks : List Bytes) :
     incremental H chunks = reportOnce (oneShot H) [] false chunks := by
   unfold incremental
-  apply incremental_aux H chunks {} [] _ k
-  exact { fp := rfl, buf := rfl, off := by decide, irr := by decide }
+  exact incremental_aux H chunks {} [] rfl rfl
 
 /-- byte prefixes after each chunk -/
 def prefixesFrom : Bytes → List Bytes → List Bytes
@@ -868,42 +561,32 @@ private theorem reportOnce_map {α β} (f : Bytes → Option α) (g : α → β)
       simp only [reportOnce, Bool.false_eq_true, if_false]
       cases f (seen ++ c) <;> simp [ih]
 
-/-- **C17, incremental, against the specification.** If in addition every prefix of the stream (at a
-chunk boundary) is `Legal` and outside the one-shot classes, the strings reported are exactly the
+/-- **C17, incremental, against the specification.** If every prefix of the stream (at a chunk
+boundary) is `Legal` and outside the three one-shot classes, the strings reported are exactly the
 specified ones: nothing until the chunk that completes the first SETTINGS frame, then the
 fingerprint `S|WU|P|PS` of the bytes received so far, then nothing. -/
 theorem incremental_conforms_partial (H : Hpack) (chunks : List Bytes)
-    (k : KF.C17.frameBeforeSettingsChunk H chunks = false)
-    (hp : ∀ p ∈ prefixesFrom [] chunks, Legal H (parseFrames (afterPreface p)) ∧ oneShotKF H p = false) :
+    (hp : ∀ p ∈ prefixesFrom [] chunks, Legal H (parseFrames (afterPreface p)) ∧ oneShotKF p = false) :
     (incremental H chunks).map (Option.map Fingerprint.render) = reportOnce (specFingerprint H) [] false chunks := by
-  rw [incremental_eq_oneshot_partial H chunks k, reportOnce_map]
+  rw [incremental_eq_oneshot H chunks, reportOnce_map]
   apply reportOnce_congr
   intro p hpm
   exact oneshot_conforms_bytes H p (hp p hpm).1 (hp p hpm).2
 
 /-! non-vacuity: the canonical start, cut inside the preface, inside the SETTINGS frame and inside
-the HEADERS frame: reported once, on the chunk that completes SETTINGS -/
+the HEADERS frame: reported once, on the chunk that completes SETTINGS; and DESIGN §8 #27
+(chunk 1 = preface + PRIORITY(3,0,0,200), chunk 2 = SETTINGS): the PRIORITY frame of the first chunk
+is part of the fingerprint reported on the second -/
 example :
     let chunks := [wGood.take 10, (wGood.drop 10).take 30, (wGood.drop 40).take 40, wGood.drop 80]
-    KF.C17.frameBeforeSettingsChunk Hpack.crate chunks = false ∧
-    (∀ p ∈ prefixesFrom [] chunks, Legal Hpack.crate (parseFrames (afterPreface p)) ∧ oneShotKF Hpack.crate p = false) ∧
+    (∀ p ∈ prefixesFrom [] chunks, Legal Hpack.crate (parseFrames (afterPreface p)) ∧ oneShotKF p = false) ∧
     reportOnce (specFingerprint Hpack.crate) [] false chunks =
       [none, none, some (ascii "1:65536;4:131072|15663105|3:0:0:201|"), none] := by decide
 
-/-- DESIGN §8 #27: chunk 1 = preface + PRIORITY(3,0,0,200), chunk 2 = SETTINGS -/
 private def wEarly : List Bytes := [clientPreface ++ [0, 0, 5, 2, 0, 0, 0, 0, 3, 0, 0, 0, 0, 200], stdSettings]
 
-theorem kf_frameBeforeSettingsChunk_witness :
-    KF.C17.frameBeforeSettingsChunk Hpack.crate wEarly = true ∧
-    incremental Hpack.crate wEarly ≠ reportOnce (oneShot Hpack.crate) [] false wEarly := by decide
-
-/-- non-vacuity of `incremental_window` on the same input: the PRIORITY frame of chunk 1 is not part
-of what chunk 2 reports -/
-example : (windowReport Hpack.crate [] false wEarly).map (Option.map Fingerprint.render) =
-    [none, some (ascii "1:65536;4:131072|00|0|")] := by decide
-
-theorem fullIncremental_fails : ¬ FullIncremental :=
-  fun h => kf_frameBeforeSettingsChunk_witness.2 (h Hpack.crate wEarly)
+example : (incremental Hpack.crate wEarly).map (Option.map Fingerprint.render) =
+    [none, some (ascii "1:65536;4:131072|00|3:0:0:201|")] := by decide
 
 /-! ## 4. the hash is a function of the string -/
 
